@@ -11,6 +11,7 @@ import XotModel.Lemmas.FcloneMain
 import XotModel.Lemmas.FcloneStrict
 import XotModel.Lemmas.FcloneLocal4
 import XotModel.Lemmas.FcloneLocal5
+import XotModel.Lemmas.FlocalAll3
 import XotModel.Lemmas.FclonePrefix8
 import XotModel.Model.FcloneModel
 import XotModel.Generated
@@ -233,5 +234,94 @@ example : (exForest.cloneNode 3).1.serialises exEnv 7 = false := by decide +kern
 example : (exForest.cloneWithPrefixes 3 [(2, 2)]).1.serialises exEnv 7 = true := by decide +kernel
 /-- a history on the source's tree whose arguments avoid the clone -/
 example : ∀ op ∈ [EditOp.setText 5 ['y'], EditOp.remove 4, EditOp.append 1 5], ∀ a ∈ op.args, a < 6 := by decide
+
+/-! ### Locality for EVERY call
+
+`Forest.HStep` (Model/FlocalSpec.lean): a call of `Forest.Call` — append, prepend, insert_after,
+insert_before, detach, remove, replace, element_wrap, element_unwrap, clone_node, any_append,
+append_attribute_node / append_namespace_node, attributes_mut / namespaces_mut insert / remove /
+clear, the setters, text_content_mut().set — or node creation, set_text_consolidation,
+remove_insignificant_whitespace.  `SepB r f`: `r` is a root of `f`, shares no handle with another
+root, and all its handles are below `f.next` (true of every root of a forest with the invariant,
+`C12_sepB_of_inv`).  No invariant is needed for the step itself; the statements hold whatever the
+call answers (`ok`, `err`, `panic`), and for arguments that are not live. -/
+
+/-- Every root of a forest with the invariant qualifies. -/
+theorem C12_sepB_of_inv (f : Forest) (inv : f.Inv) (r : HTree) (hr : r ∈ f.roots) : SepB r f :=
+  SepB.of_inv inv hr
+
+/-- One call none of whose node arguments is a node of the root tree `r` leaves `r`, handle for
+    handle and value for value, a root of the forest (and still separated, so this iterates).
+    For `clone_node` the source may even lie in `r`: cloning only reads it (`Call.args` lists it, so
+    the hypothesis below asks more than needed; `C12_locality_cloneNode`). -/
+theorem C12_locality_call (f : Forest) (r : HTree) (c : Forest.Call) (hs : SepB r f)
+    (hargs : ∀ a ∈ c.args, a ∉ HTree.handles r) :
+    r ∈ (c.run f).1.roots ∧ SepB r (c.run f).1 :=
+  ⟨(hs.call c hargs).sep.mem, hs.call c hargs⟩
+
+theorem C12_locality_cloneNode (f : Forest) (r : HTree) (n : Nat) (hs : SepB r f) :
+    r ∈ (f.cloneNode n).1.roots ∧ SepB r (f.cloneNode n).1 :=
+  ⟨(hs.cloneNode n).sep.mem, hs.cloneNode n⟩
+
+/-- The same with the hypothesis read as "the root of every argument is not `r`". -/
+theorem C12_locality_call_root (f : Forest) (inv : f.Inv) (r : HTree) (hr : r ∈ f.roots)
+    (c : Forest.Call) (hargs : ∀ a ∈ c.args, ∀ t ∈ f.roots, a ∈ HTree.handles t → t ≠ r) :
+    r ∈ (c.run f).1.roots :=
+  (C12_locality_call f r c (SepB.of_inv inv hr) (fun a ha har => hargs a ha r hr har rfl)).1
+
+/-- One step of a history (calls, node creation, set_text_consolidation,
+    remove_insignificant_whitespace). -/
+theorem C12_locality_step (f : Forest) (r : HTree) (st : Forest.HStep) (hs : SepB r f)
+    (hargs : ∀ a ∈ st.args, a ∉ HTree.handles r) :
+    r ∈ (f.stepAll st).roots ∧ SepB r (f.stepAll st) :=
+  ⟨(hs.stepAll st hargs).sep.mem, hs.stepAll st hargs⟩
+
+/-- Arbitrary histories: a root tree none of whose nodes is ever named as an argument is, at the
+    end, exactly the tree it was. -/
+theorem C12_locality_all (f : Forest) (r : HTree) (ss : List Forest.HStep) (hs : SepB r f)
+    (hargs : ∀ st ∈ ss, ∀ a ∈ st.args, a ∉ HTree.handles r) :
+    r ∈ (f.runAll ss).roots ∧ SepB r (f.runAll ss) :=
+  ⟨(hs.runAll ss hargs).sep.mem, hs.runAll ss hargs⟩
+
+/-- … in particular along the histories of C04 (`Op`, `Forest.run`). -/
+theorem C12_locality_ops (f : Forest) (inv : f.Inv) (r : HTree) (hr : r ∈ f.roots) (ops : List Op)
+    (hargs : ∀ o ∈ ops, ∀ a ∈ o.args, a ∉ HTree.handles r) : r ∈ (f.run ops).roots := by
+  rw [Forest.run_eq_runAll]
+  refine (C12_locality_all f r _ (SepB.of_inv inv hr) ?_).1
+  intro st hst a ha
+  obtain ⟨o, ho, rfl⟩ := List.mem_map.mp hst
+  exact hargs o ho a ha
+
+/-- Independence under arbitrary later histories: the clone is untouched by whatever is done to
+    nodes outside it (in particular to the source and its tree), and every old tree (in particular
+    the source's) is untouched by whatever is done to nodes outside it (in particular to the clone). -/
+theorem C12_independent_all (f : Forest) (inv : f.Inv) (node c : Nat) (live : f.isLive node = true)
+    (hc : (f.cloneNode node).2 = some c) :
+    ∃ C, (f.cloneNode node).1.get? c = some C ∧
+      (∀ ss : List Forest.HStep, (∀ st ∈ ss, ∀ a ∈ st.args, a ∉ HTree.handles C) →
+        C ∈ ((f.cloneNode node).1.runAll ss).roots) ∧
+      (∀ r ∈ f.roots, ∀ ss : List Forest.HStep, (∀ st ∈ ss, ∀ a ∈ st.args, a ∉ HTree.handles r) →
+        r ∈ ((f.cloneNode node).1.runAll ss).roots) := by
+  obtain ⟨src, hsrc⟩ := (Forest.isLive_iff f node).mp live
+  obtain ⟨C, f', h1, h2, h3, h4, -⟩ := cloneNode_full f inv node src hsrc
+  obtain ⟨g3, g4⟩ := sepB_after_clone f inv C f' h2 h4
+  rw [h1] at hc ⊢
+  cases hc
+  exact ⟨C, h3, fun ss h => (g3.runAll ss h).sep.mem, fun r hr ss h => ((g4 r hr).runAll ss h).sep.mem⟩
+
+/-- Non-vacuity: composite calls, map calls, whitespace removal, creation and a second cloning on the
+    source's tree (handles below 6) leave the clone (root 7, handles 7, 8, 9) as it was, and the other
+    way round; evaluated. -/
+def exSteps : List Forest.HStep :=
+  [.call (.elementWrap 3 9), .call (.mapInsert .attributes 3 (.attribute 4 ['w'])),
+   .call (.replace 5 4), .removeInsignificantWhitespace 0, .newNode (.text []),
+   .call (.cloneNode 3), .setConsolidation false, .call (.elementUnwrap 1), .call (.mapClear .namespaces 1)]
+example : ∀ st ∈ exSteps, ∀ a ∈ st.args, a < 6 := by decide
+example : (((exForest.cloneNode 3).1.get? 7).map HTree.handles = some [7, 8, 9]) ∧
+    ((((exForest.cloneNode 3).1.runAll exSteps).get? 7).map HTree.handles = some [7, 8, 9]) ∧
+    ((exForest.cloneNode 3).1.runAll exSteps).allHandles ≠ (exForest.cloneNode 3).1.allHandles := by
+  decide +kernel
+example : ∀ st ∈ [Forest.HStep.call (.setText 9 ['q']), .call (.elementWrap 7 3), .call (.remove 8)],
+    ∀ a ∈ st.args, 6 ≤ a := by decide
 
 end XotModel.Props
